@@ -49,6 +49,10 @@ pub trait L: Clone + PartialEq + Eq + Ord + Hash + Display + LowerHex + Binary +
     fn to_bin_(&self) -> String;
     /// the same function after a conversion to the other type and back
     fn via_other_(&self) -> Self;
+    /// `all_functions` on the CONCRETE iterator type (a boxed iterator forwards only `next`, `nth`, `size_hint`, `last`):
+    /// after `k` calls of `next` (one more when `extra`), what is left, through `count` (0), `fold` (1), `last` (2),
+    /// `for_each` (3) or `max` (4)
+    fn iter_rest_(n: usize, k: usize, extra: bool, variant: usize) -> String;
 
     /// every syntactic form of NOT: (form name, result)
     fn not_forms(a: &Self) -> Vec<(&'static str, Box<dyn Fn(&Self) -> Self>)>;
@@ -288,6 +292,31 @@ impl L for Lut {
             _ => self.clone(),
         }
     }
+    fn iter_rest_(n: usize, k: usize, extra: bool, variant: usize) -> String {
+        let _ = n;
+        let mut it = Lut::all_functions(n);
+        for _ in 0..k {
+            it.next();
+        }
+        if extra {
+            it.next();
+        }
+        let show = |l: Option<Self>| match l {
+            Some(l) => format!("{}:{}", l.nvars(), l.blocks_().iter().map(|x| format!("{:x}", x)).collect::<Vec<_>>().join(".")),
+            None => "none".to_string(),
+        };
+        match variant {
+            0 => format!("count:{}", it.count()),
+            1 => format!("fold:{}", it.fold(0usize, |acc, _| acc + 1)),
+            2 => format!("last:{}", show(it.last())),
+            3 => {
+                let mut cnt = 0usize;
+                it.for_each(|_| cnt += 1);
+                format!("count:{}", cnt)
+            }
+            _ => format!("last:{}", show(it.max())),
+        }
+    }
     common_methods!();
 }
 
@@ -348,6 +377,31 @@ impl<const N: usize, const T: usize> L for StaticLut<N, T> {
     }
     fn via_other_(&self) -> Self {
         Self::try_from(Lut::from(*self)).unwrap()
+    }
+    fn iter_rest_(n: usize, k: usize, extra: bool, variant: usize) -> String {
+        let _ = n;
+        let mut it = Self::all_functions();
+        for _ in 0..k {
+            it.next();
+        }
+        if extra {
+            it.next();
+        }
+        let show = |l: Option<Self>| match l {
+            Some(l) => format!("{}:{}", l.nvars(), l.blocks_().iter().map(|x| format!("{:x}", x)).collect::<Vec<_>>().join(".")),
+            None => "none".to_string(),
+        };
+        match variant {
+            0 => format!("count:{}", it.count()),
+            1 => format!("fold:{}", it.fold(0usize, |acc, _| acc + 1)),
+            2 => format!("last:{}", show(it.last())),
+            3 => {
+                let mut cnt = 0usize;
+                it.for_each(|_| cnt += 1);
+                format!("count:{}", cnt)
+            }
+            _ => format!("last:{}", show(it.max())),
+        }
     }
     common_methods!();
 }
